@@ -220,7 +220,20 @@ func VF_C03_Sort(n, _ int) {
 	kit := intKeys()
 	vf.Budget(20 * listBudget)
 	c, m := c03Setup(kit, n)
+	// views taken before the reordering: the keys (asked for again afterwards) and an iterator that is
+	// continued afterwards and must still visit every association exactly once
+	keysBefore := c.GetKeys().AsArray()
+	vf.Assert("keys-before", eqInts(keysBefore, m.ks))
+	it := c.GetIterator()
+	var seen []int
+	if n > 0 {
+		seen = append(seen, it.GetNext().GetKey())
+	}
 	c.SortValuesWithRanker(func(a, b col.AssociationLike[int, int]) age.Rank { return ufRanker(a.GetKey(), b.GetKey()) })
+	for it.HasNext() {
+		seen = append(seen, it.GetNext().GetKey())
+	}
+	vf.Assert("iterator-continued-across-the-sort-visits-each-association-once", isPerm(seen, m.ks))
 	ok := c.GetSize() == n
 	for i := range m.ks {
 		ok = vf.And(ok, c.GetValue(m.ks[i]) == m.vs[i])
@@ -233,6 +246,22 @@ func VF_C03_Sort(n, _ int) {
 		ok = vf.And(ok, arr[i].GetValue() == c.GetValue(arr[i].GetKey()))
 	}
 	vf.Assert("sort-preserves-mapping", ok)
+	// the key view and the array view describe the same order after the sort
+	var arrKeys []int
+	for _, a := range arr {
+		arrKeys = append(arrKeys, a.GetKey())
+	}
+	vf.Assert("keys-and-array-agree-after-sort", eqInts(keys, arrKeys))
+	// the same through the other reorderings
+	c.ReverseValues()
+	vf.Assert("keys-follow-reverse", eqInts(c.GetKeys().AsArray(), rev(keys)))
+	c.SortValues()
+	ks2 := c.GetKeys().AsArray()
+	asc := true
+	for i := 0; i+1 < len(ks2); i++ {
+		asc = vf.And(asc, ks2[i] < ks2[i+1])
+	}
+	vf.Assert("natural-sort-after-reverse-ascending", asc)
 	vf.BudgetReset()
 	vf.Reach("end")
 }
